@@ -447,7 +447,26 @@ func RunTreeModes(r *vh.Run, name string, t *chainx.Tree, sched [][]int, modes [
 	reorgs, failed, errs, nearTies := 0, 0, 0, 0
 	decls := c02.Declare(t, c02.NewIDs())
 	tainted := false
+	// on a probed node every third plain submission meets a store whose Flush fails once
+	// (Model/ChainFF.lean, op addff); when the failure was consumed the same batch is offered again
+	type item struct {
+		batch  []int
+		mode   string
+		bi     int
+		noFail bool
+	}
+	var queue []item
 	for bi, batch := range sched {
+		mode := ""
+		if bi < len(modes) {
+			mode = modes[bi]
+		}
+		queue = append(queue, item{batch, mode, bi, false})
+	}
+	for len(queue) > 0 {
+		it := queue[0]
+		queue = queue[1:]
+		batch, bi, mode := it.batch, it.bi, it.mode
 		before := Observe(t, nd, "x")
 		beforeState := encState(nd)
 		beforeTip, _ := t.Lookup(nd.CM.Tip().ID)
@@ -456,10 +475,7 @@ func RunTreeModes(r *vh.Run, name string, t *chainx.Tree, sched [][]int, modes [
 		var sb strings.Builder
 		// every third eligible batch goes through the pre-validated path, sometimes with a wrong
 		// number of states
-		mode := ""
-		if bi < len(modes) {
-			mode = modes[bi]
-		}
+		flushFailed := false
 		if mode == "addv2" || (mode == "" && PreValidated(t, batch) && (len(batch)+bi)%3 == 0) {
 			nStates := len(batch)
 			if (len(batch)+bi)%5 == 0 {
@@ -469,8 +485,21 @@ func RunTreeModes(r *vh.Run, name string, t *chainx.Tree, sched [][]int, modes [
 			fmt.Fprintf(&sb, "addv2 %d", nStates)
 			c.Tags = append(c.Tags, "addv2")
 		} else {
+			arm := nd.Probe != nil && !it.noFail && bi%3 == 1
+			if arm {
+				nd.Probe.FailNextFlush()
+			}
 			res = Submit(nd, t.Get(batch))
-			sb.WriteString("add")
+			if arm {
+				flushFailed = nd.Probe.DisarmFlush()
+			}
+			if flushFailed {
+				sb.WriteString("addff")
+				c.Tags = append(c.Tags, "flush-failed:"+res)
+				queue = append([]item{{batch, "add", bi, true}}, queue...)
+			} else {
+				sb.WriteString("add")
+			}
 		}
 		for _, id := range batch {
 			fmt.Fprintf(&sb, " %d", id)
@@ -485,7 +514,7 @@ func RunTreeModes(r *vh.Run, name string, t *chainx.Tree, sched [][]int, modes [
 		}
 		afterTip, _ := t.Lookup(nd.CM.Tip().ID)
 		failedTarget := -1
-		if res == "reorg-failed" {
+		if res == "reorg-failed" || (flushFailed && res == "rollback-failed") {
 			failedTarget = batch[len(batch)-1]
 		}
 		for _, x := range t.Reverted(beforeTip, afterTip, failedTarget) {
@@ -497,7 +526,10 @@ func RunTreeModes(r *vh.Run, name string, t *chainx.Tree, sched [][]int, modes [
 		Audit(c, t, nd, res, before, beforeState, beforeTip, beforeN, tainted)
 		AuditStoredStates(c, t, nd, tainted)
 		AuditProbe(c, nd)
-		if mode != "addv2" && !(mode == "" && strings.HasPrefix(sb.String(), "addv2")) {
+		if flushFailed && nd.CM.Tip() != t.Blocks[beforeTip].Index() {
+			c.Oracle("failed-submission-changed-chain", "the store's Flush failed during AddBlocks(%v) (result %s) and the tip moved from %v to %v", batch, res, t.Blocks[beforeTip].Index(), nd.CM.Tip())
+		}
+		if mode != "addv2" && !flushFailed && !(mode == "" && strings.HasPrefix(sb.String(), "addv2")) {
 			AuditAdopted(c, t, nd, res, batch, beforeTip)
 		}
 		if len(t.Blocks) <= 300 {
